@@ -401,6 +401,7 @@ def run_c17(rep):
     fam_style.style_family(rep, n, k)
     fam_style.string_level(rep, rep.seed, sizes(rep, 3000, 60000))
     fam_style.py_body_family(rep, sizes(rep, 300, 6000))
+    fam_style.multiline_stmt_family(rep, sizes(rep, 150, 3000))
     text_tie(rep, "c17-text", quick=(100, 200, 400), thorough=(2000, 4000, 10000))
 
 
@@ -658,7 +659,7 @@ PROPS = {
     ),
     "C17": dict(
         theorems=["Bardic.Parser." + t for t in ["strip_comment_suffix", "strip_keeps_escaped", "strip_keeps_floordiv_assign",
-                                                  "strip_noslash", "dedent_uniform", "contentLine_comment_invisible"]],
+                                                  "strip_noslash", "dedent_uniform", "dedent_comment_head", "contentLine_comment_invisible"]],
         run=run_c17,
         rule="each generated story (parameters, @if/@for nesting, @py blocks, hooks, @join blocks, render/input directives, "
              "block and conditional choices, jumps) is printed once plainly and in 6 (thorough 12) random style vectors over "
